@@ -262,6 +262,9 @@ pub struct Scenario {
     pub preset_ids: Vec<(usize, TransactionID)>,
     /// transfers whose Put is fire-and-forget: the user drops the reply channel before the daemon answers
     pub forget_puts: Vec<usize>,
+    /// (entity, n): that entity's transport accepts n PDUs and then never returns from `request` again
+    /// (a flow-controlled link that has stalled: back-pressure instead of loss)
+    pub stall_after: Vec<(Ent, usize)>,
 }
 
 /// A configuration that differs from `c` in every observable respect. The daemons are given the real
@@ -368,6 +371,7 @@ struct Shared {
     arrive_count: Mutex<Vec<usize>>,
     ids_by_entity: Vec<u16>,
     tx_ms: u64,
+    stall_after: Vec<(Ent, usize)>,
     sched: UnboundedSender<Msg>,
     budget: usize,
     over_budget: AtomicBool,
@@ -406,6 +410,12 @@ struct SimTransport {
 #[async_trait]
 impl PDUTransport for SimTransport {
     async fn request(&mut self, destination: VariableID, pdu: PDU) -> Result<(), IoError> {
+        if let Some((_, n)) = self.shared.stall_after.iter().find(|(e, _)| *e == self.me) {
+            if self.shared.emit_count.lock().unwrap()[self.me] >= *n {
+                // the link has stalled: this PDU (and everything behind it) is never taken
+                return std::future::pending().await;
+            }
+        }
         let bytes = pdu.clone().encode();
         let to = self.shared.ent_of(&destination);
         let kind = kind_of(&pdu);
@@ -1107,6 +1117,7 @@ pub fn run(mut sc: Scenario, scratch: &str) -> RunLog {
             arrive_count: Mutex::new(vec![0; n]),
             ids_by_entity: sc.entities.iter().map(|e| e.id).collect(),
             tx_ms: sc.tx_ms,
+            stall_after: sc.stall_after.clone(),
             sched: stx,
             budget: 60_000,
             over_budget: AtomicBool::new(false),
